@@ -71,6 +71,13 @@ def trunc_check(case):
     # content: a byte ramp, so that every int16 differs from its neighbours
     raw = (np.arange(nbytes, dtype=np.int64) * 37 + 11) % 251
     raw = raw.astype(np.uint8)
+    # value patterns: one third of the cases end in frames that are zero on every channel (zero-filled tail of an interrupted transfer, silent stretch),
+    # one third are zero throughout - the complete frames present are what is exposed, whatever they hold
+    content = (nf + nbytes % frame + fi) % 3
+    if content == 1:
+        raw[(nf - (nf + 2) // 3) * frame:] = 0
+    elif content == 2:
+        raw[:] = 0
     fbin = os.path.join(d, stem + ".bin")
     raw.tofile(fbin)
     items = synth.meta_items("NP2.1", _sites(k), _claimed(mode, nf), fs=fs)
@@ -123,7 +130,7 @@ def trunc_check(case):
             sr.close()
         except Exception:
             pass
-    return Res(v, o=(partial, mode, rd), nt=(partial or mode != "equal"), tr=10)
+    return Res(v, o=(partial, mode, rd, content), nt=(partial or mode != "equal"), tr=10)
 
 
 # ------------------------------------------------------------------ compressed stream with another sample count than announced
@@ -341,7 +348,7 @@ CHECK = {
     "rule": "one case per (channel count, file length in bytes, metadata claim, sampling rate, reader class); "
             "non-trivial = incomplete last frame or metadata disagreeing with the file",
     "assumptions": [
-        "file contents are a fixed byte ramp (the reader does no value-dependent work when opening)",
+        "file contents are a fixed byte ramp, the same ramp with an all-zero tail, or all zero (the reader must do no value-dependent work when opening)",
         "for compressed files 'shorter than announced' is realised as a .ch/.cbin holding another sample count than the .meta claims; "
         "a .cbin whose own byte stream is cut is outside what the reader can detect without decoding and is not covered",
         "reads are checked for slices (NumPy never raises on slices); integer indices only inside the exposed range",
